@@ -385,7 +385,8 @@ func checkGroup(p *pool, g group, runs []nrun, each func(Case, []string, progRes
 		}
 	}
 	// (2) constant stack: only for shapes whose call is a tail call all the way
-	if (g.Family == "tail" || g.Family == "multiform" || g.Family == "chain") && len(hs) >= 2 {
+	// (not the stack-growth walks: their N is the recursion DEPTH, not a number of turns)
+	if (g.Family == "tail" || g.Family == "multiform" || g.Family == "chain") && g.Container != "walk" && len(hs) >= 2 {
 		measures := []struct {
 			name string
 			f    func(progResult) int
